@@ -227,7 +227,7 @@ def r4(ctx, R):
 
 
 def r5(ctx, R):
-    R.rule("C12.R5", "member completion includes inherited members", floor=1, confirmed=1)
+    R.rule("C12.R5", "member completion includes inherited members of every EXTENDS level", floor=3, confirmed=3)
     t = ctx.m.cname.get("Type")
     gc = ctx.m.classes[t].methods.get("get_children") if t else None
     if not gc:
@@ -237,6 +237,13 @@ def r5(ctx, R):
         R.ok("C12.R5", g.short, "inherited members included", loc(g, g.node))
     else:
         R.violation("C12.R5", g.short, "inherited members included", loc(g, g.node), "after `object%` the components inherited through EXTENDS are not offered")
+    from .shared import inherited_member_sites
+
+    for f, node, ok, what, why in inherited_member_sites(ctx):
+        if ok:
+            R.ok("C12.R5", f.short, what, loc(f, node))
+        else:
+            R.violation("C12.R5", f.short, what, loc(f, node), why)
 
 
 def r6(ctx, R):
